@@ -476,6 +476,69 @@ theorem assembled_text_ok_id (f : Fields) (hf : FrameOK f = true) (itext : Optio
   have h := assembled_text_ok f hf itext rk rest bk PW PB pretty
   rwa [normAttrVal_ok f.idString hid] at h
 
+/-! ## 4b. The guard in syntactic terms for a plain header -/
+
+theorem all_step (p : Str × Str → Bool) (a : List (Str × Str)) (c : Bool) (k v : Str)
+    (ha : a.all p = true) (hkv : p (k, v) = true) : (if c = true then a else setAttr a k v).all p = true := by
+  cases c
+  · exact all_setAttr p a k v ha hkv
+  · exact ha
+
+/-- every attribute of the primary instance root is one of the user's `attribute::` columns or one of
+    the five settings-driven attributes -/
+theorem all_rootAttrs (p : Str × Str → Bool) (f : Fields) (hattr : f.attrib.all p = true)
+    (h1 : p ("id".toList, f.idString) = true) (h2 : p ("xmlns".toList, f.instanceXmlns) = true)
+    (h3 : p ("version".toList, f.version) = true) (h4 : p ("odk:prefix".toList, f.pfx) = true)
+    (h5 : p ("odk:delimiter".toList, f.delimiter) = true) : (rootAttrs f).all p = true := by
+  unfold rootAttrs
+  exact all_step p _ _ _ _ (all_step p _ _ _ _ (all_step p _ _ _ _ (all_step p _ _ _ _
+    (all_setAttr p _ _ _ (all_setAttrs p _ [] rfl hattr) h1) h2) h3) h4) h5
+
+theorem htmlAttrs_plain (f : Fields) (hns : f.namespaces = []) (hef : f.entityFeatures = false) :
+    htmlAttrs f = NSMAP := by
+  unfold htmlAttrs getNsmap nsString
+  rw [hef, hns]
+  exact nsmap_wellformed.2.1
+
+/-- **The guard for a plain header.**  Without `namespaces` / `attribute::` settings and without
+    entities the guard `FrameOK` says no more than: the form name is an NCName and the header
+    strings (title, id, version, style, …) consist of XML characters. -/
+theorem frameOK_plain (f : Fields) (hns : f.namespaces = []) (hef : f.entityFeatures = false)
+    (hattr : f.attrib = []) (hname : isName f.name = true) (hq : isQName f.name = true)
+    (hnp : ∃ l, splitQName f.name = (none, l))
+    (htitle : f.title.all isXmlChar = true) (hid : f.idString.all isXmlChar = true)
+    (hstyle : f.style.all isXmlChar = true) (hix : f.instanceXmlns.all isXmlChar = true)
+    (hver : f.version.all isXmlChar = true) (hpfx : f.pfx.all isXmlChar = true)
+    (hdel : f.delimiter.all isXmlChar = true) (hurl : f.submissionUrl.all isXmlChar = true)
+    (hkey : f.publicKey.all isXmlChar = true) (hsend : f.autoSend.all isXmlChar = true)
+    (hdelete : f.autoDelete.all isXmlChar = true) : FrameOK f = true := by
+  have hH := htmlAttrs_plain f hns hef
+  have hodk : (declaredPrefixes NSMAP).contains "odk".toList = true := by decide +kernel
+  obtain ⟨l, hl⟩ := hnp
+  have hroot : (rootAttrs f).all (attrOk (declaredPrefixes (rootAttrs f) ++ declaredPrefixes NSMAP)) = true := by
+    apply all_rootAttrs
+    · rw [hattr]; rfl
+    · exact attrOk_intro _ _ _ (by decide) hid (qnameOk_unprefixed _ _ "id".toList (by decide) (by decide))
+    · exact attrOk_intro _ _ _ (by decide) hix (qnameOk_unprefixed _ _ "xmlns".toList (by decide) (by decide))
+    · exact attrOk_intro _ _ _ (by decide) hver (qnameOk_unprefixed _ _ "version".toList (by decide) (by decide))
+    · exact attrOk_intro _ _ _ (by decide) hpfx
+        (qnameOk_mono _ _ _ (qnameOk_prefixed _ _ "odk".toList "prefix".toList (by decide) (by decide) hodk))
+    · exact attrOk_intro _ _ _ (by decide) hdel
+        (qnameOk_mono _ _ _ (qnameOk_prefixed _ _ "odk".toList "delimiter".toList (by decide) (by decide) hodk))
+  have hneeded : (neededPrefixes f).all (fun p => (declaredPrefixes NSMAP).contains p) = true := by
+    unfold neededPrefixes
+    rw [hef]
+    decide +kernel
+  have hnsok : NsOK f = true := by
+    unfold NsOK
+    rw [hH, nsmap_default_and_h.1, nsmap_default_and_h.2]
+    rfl
+  have hhtml : NSMAP.all (attrOk (declaredPrefixes NSMAP)) = true := by decide +kernel
+  simp only [FrameOK, hH, hroot, hname, qnameOk_unprefixed _ _ l hq hl, htitle, hstyle, hurl, hkey, hsend,
+    hdelete, hneeded, hnsok, hhtml, Bool.and_self]
+
+#print axioms frameOK_plain
+
 /-! ## 5. Non-vacuity -/
 
 /-- settings with a `namespaces` cell (two prefixes, noise tokens, quotes), `attribute::` columns
@@ -530,6 +593,11 @@ example : rootAttrs exFields =
 example : (htmlAttrs exFields).drop 7 =
     [("xmlns:esri".toList, "http://esri.com/x".toList), ("xmlns:ex".toList, "urn:e&x".toList),
      ("xmlns:entities".toList, "http://www.opendatakit.org/xforms/entities".toList)] := by decide +kernel
+
+-- the plain-header guard instantiated
+example : FrameOK { name := "data".toList, title := "T <&>".toList, idString := "f 1".toList, version := "2".toList } = true :=
+  frameOK_plain _ rfl rfl rfl (by decide) (by decide) ⟨"data".toList, by decide⟩ (by decide) (by decide) (by decide) (by decide)
+    (by decide) (by decide) (by decide) (by decide) (by decide) (by decide) (by decide)
 
 -- the guard is needed: each known finding violates it, and the oracle fails on the model's own output
 /-- F2: `namespaces = "1x=http://a"` (prefix not an NCName) -/
